@@ -349,7 +349,9 @@ def inputs_from_model(path, vals):
             best[t["var"]] = (key, ang)
     for v, (_, ang) in best.items():
         inp[v] = repr(ang)
-    inp.pop("PI", None)
+    if path["trig"]:
+        # paths with sin/cos atoms are evaluated natively with the pi-periodic functions: keep the native pi there
+        inp.pop("PI", None)
     inp.pop("M", None)
     # EPS stays: the exact-rational replay scalar takes the model's epsilon (the f64 replay has its own and ignores it)
     return inp
